@@ -196,7 +196,119 @@ type shardResult struct {
 	elapsed  time.Duration
 }
 
+// runFuzz runs one native `go test -fuzz` campaign. It cannot be pinned to a seed; a saved
+// crasher is converted into an ordinary replay case.
+func (c *ctx) runFuzz(spec ev.ShardSpec) shardResult {
+	res := shardResult{spec: spec}
+	pkgDir := filepath.Join(c.harness, c.engine)
+	target := strings.Trim(spec.Test, "^$")
+	crashDir := filepath.Join(pkgDir, "testdata", "fuzz", target)
+	before := map[string]bool{}
+	if ents, err := os.ReadDir(crashDir); err == nil {
+		for _, e := range ents {
+			before[e.Name()] = true
+		}
+	}
+	fuzztime := "60s"
+	if v, ok := spec.Env["VERIF_FUZZTIME"]; ok {
+		fuzztime = v
+	}
+	timeout := time.Duration(spec.TimeoutS) * time.Second
+	if timeout == 0 {
+		timeout = 30 * time.Minute
+	}
+	cx, cancel := context.WithTimeout(context.Background(), timeout)
+	defer cancel()
+	args := []string{"test", "-tags", "verif", "-run", "^$", "-fuzz", spec.Test, "-fuzztime", fuzztime, "./" + c.engine}
+	cmd := exec.CommandContext(cx, "go", args...)
+	cmd.Dir = c.harness
+	env := append(c.goEnv("mod"), "VERIF_ID="+c.id, "VERIF_TIER="+c.tier, "VERIF_ROOT="+c.root, "VERIF_REPO="+c.repo)
+	for k, v := range spec.Env {
+		env = append(env, k+"="+v)
+	}
+	cmd.Env = env
+	cmd.SysProcAttr = &syscall.SysProcAttr{Setpgid: true}
+	cmd.Cancel = func() error { return syscall.Kill(-cmd.Process.Pid, syscall.SIGKILL) }
+	var buf bytes.Buffer
+	cmd.Stdout, cmd.Stderr = &buf, &buf
+	err := cmd.Run()
+	res.log = buf.String()
+	p := &ev.Partial{Property: c.id, Shard: spec.Name, Tier: c.tier, Classes: map[string]int64{}, Completed: true, Extra: map[string]any{}}
+	// "fuzz: elapsed: 1m0s, execs: 1234567 (20000/sec), new interesting: 12 (total: 40)"
+	for _, line := range strings.Split(res.log, "\n") {
+		if i := strings.Index(line, "execs: "); i >= 0 {
+			var n int64
+			fmt.Sscanf(line[i+len("execs: "):], "%d", &n)
+			if n > p.Evaluations {
+				p.Evaluations = n
+			}
+		}
+	}
+	p.Classes["native_fuzz_execs_"+target] = p.Evaluations
+	if cx.Err() != nil {
+		res.timedOut = true
+		p.Completed = false
+	}
+	if err != nil && cx.Err() == nil {
+		// a crasher was written to testdata/fuzz/<target>/
+		found := false
+		if ents, derr := os.ReadDir(crashDir); derr == nil {
+			for _, e := range ents {
+				if before[e.Name()] {
+					continue
+				}
+				data, rerr := os.ReadFile(filepath.Join(crashDir, e.Name()))
+				if rerr != nil {
+					continue
+				}
+				if in, ok := parseFuzzCorpus(string(data)); ok {
+					found = true
+					cs, _ := json.Marshal(map[string]string{"input_b64": base64.StdEncoding.EncodeToString(in), "input_text": strconv.QuoteToASCII(string(in))})
+					p.Violations = append(p.Violations, ev.Violation{Property: c.id, Kind: "input", Sig: "native-fuzz-crasher", Size: len(in),
+						Msg: "native fuzzing found a failing input; go test output:\n" + tail(res.log, 1500), Case: cs})
+				}
+				_ = os.Remove(filepath.Join(crashDir, e.Name()))
+			}
+		}
+		if !found {
+			p.Completed = false
+			res.exit = 2
+		} else {
+			res.exit = 1
+		}
+	}
+	res.partial = p
+	normal := p.Completed && !res.timedOut && (res.exit == 0 || (res.exit == 1 && len(p.Violations) > 0))
+	res.abnormal = !normal
+	if res.abnormal {
+		_ = os.MkdirAll(filepath.Join(c.root, ".logs"), 0o755)
+		_ = os.WriteFile(filepath.Join(c.root, ".logs", fmt.Sprintf("%s-%s-%s.log", c.id, c.tier, spec.Name)), []byte(tail(res.log, 200000)), 0o644)
+	}
+	return res
+}
+
+// parseFuzzCorpus decodes a "go test fuzz v1" corpus file with a single []byte or string value.
+func parseFuzzCorpus(s string) ([]byte, bool) {
+	lines := strings.Split(strings.TrimSpace(s), "\n")
+	if len(lines) < 2 || !strings.HasPrefix(lines[0], "go test fuzz v1") {
+		return nil, false
+	}
+	l := strings.TrimSpace(lines[1])
+	for _, pre := range []string{"[]byte(", "string("} {
+		if strings.HasPrefix(l, pre) && strings.HasSuffix(l, ")") {
+			q := l[len(pre) : len(l)-1]
+			if v, err := strconv.Unquote(q); err == nil {
+				return []byte(v), true
+			}
+		}
+	}
+	return nil, false
+}
+
 func (c *ctx) runShard(bin string, spec ev.ShardSpec, n int) shardResult {
+	if spec.Fuzz {
+		return c.runFuzz(spec)
+	}
 	res := shardResult{spec: spec}
 	out := filepath.Join(c.work, fmt.Sprintf("shard-%04d", n))
 	_ = os.MkdirAll(out, 0o755)
@@ -423,9 +535,18 @@ func (c *ctx) run() int {
 		}()
 	}
 	for _, s := range queue {
-		launch(s)
+		if !s.Fuzz {
+			launch(s)
+		}
 	}
 	wg.Wait()
+	// native fuzz campaigns use every core themselves: one at a time, after the rest
+	for _, s := range queue {
+		if s.Fuzz {
+			launch(s)
+			wg.Wait()
+		}
+	}
 	return c.merge(plan, results, crashes, bin)
 }
 
